@@ -72,6 +72,21 @@ EchoOK(S0, in, out) == WellFormed(out) /\ Valid(S0, out) /\ Same(Held(S0, in), o
 
 \* deviations visible in an echo (the first is C03's, seen here from the encoding side)
 EchoDeviations == {"Dev_RequiredUndeclaredNotEnforced", "Dev_DroppedMembersCounted"}
+\* deviations seen only with values built in the process (not read from JSON):
+\*   Dev_PropertyCountNotInValidate: minProperties / maxProperties are checked by the
+\*     decoder while it reads, the generated Validate does not look at them, so a value
+\*     with too few / too many members passes Validate and is written as invalid JSON
+\*   Dev_AdditionalPropsKeyNamedLikeMember: a key of the additional-properties map that
+\*     equals a declared member is written next to / instead of that member
+\*   Dev_NilRawWrittenAsNothing: a nil jx.Raw (schema without type) is written as no text
+\*   Dev_NilPointerEmptyStruct: an object schema without properties is boxed as a pointer;
+\*     a nil pointer inside a set optional is written as {} and read back as non-nil
+\*   Dev_SharedArrayNilSemantic: an array component used both as an optional member and
+\*     as an array item keeps the optional's "nil means absent": a nil item passes
+\*     Validate and is dropped from the array when written
+\*   Dev_NullableEnumAcceptsNull: the C03 deviation of this name, met from the writing side
+BuiltDeviations == {"Dev_NullableEnumAcceptsNull", "Dev_PropertyCountNotInValidate", "Dev_AdditionalPropsKeyNamedLikeMember", "Dev_NilRawWrittenAsNothing",
+                    "Dev_NilPointerEmptyStruct", "Dev_SharedArrayNilSemantic"}
 
 (**************************** implementation layer *************************)
 States == {"absent", "null", "value"}
